@@ -792,10 +792,40 @@ fn driver_family(case: &Value) -> Value {
     Value::Object(o)
 }
 
+/// family "parlib": the library's Runner::run_parallel with a logging connection builder (C17, known finding D10)
+fn parlib_family(_case: &Value) -> Value {
+    let tree = Tree::create(&json!([
+        ["p/a-b.slt", "file", "statement ok\nselect A\n"],
+        ["p/a_b.slt", "file", "statement ok\nselect B\n"],
+        ["p/c.slt", "file", "connection x\nstatement ok\nselect C\n"]
+    ]));
+    let shared = PAR_SHARED.get_or_init(|| Arc::new(Mutex::new(Shared::default()))).clone();
+    shared.lock().unwrap().events.clear();
+    set_current(Some(shared.clone()));
+    let mut runner = Runner::new(MockMaker::<DefaultColumnType>::new(shared.clone()));
+    let glob = format!("{}p/*.slt", tree.prefix());
+    let res = catch_unwind(AssertUnwindSafe(|| runner.run_parallel(&glob, vec!["h".to_string()], par_builder, 2)));
+    runner.shutdown();
+    drop(runner);
+    set_current(None);
+    let evs = shared.lock().unwrap().events.clone();
+    let count = |p: &dyn Fn(&Value) -> bool| evs.iter().filter(|e| p(e)).count();
+    let creates = count(&|e| e[0] == "sql" && e[2].as_str().unwrap_or("").starts_with("CREATE DATABASE"));
+    let drops = count(&|e| e[0] == "sql" && e[2].as_str().unwrap_or("").starts_with("DROP DATABASE"));
+    let connects = count(&|e| e[0] == "connect-db");
+    let shutdowns = count(&|e| e[0] == "shutdown").saturating_sub(1); // minus the parent's own default session
+    let mut dbs: Vec<String> = evs.iter().filter(|e| e[0] == "connect-db").map(|e| e[2].as_str().unwrap().to_string()).collect();
+    dbs.sort();
+    let distinct = { let mut d = dbs.clone(); d.dedup(); d.len() };
+    json!({"ok": res.map(|r| r.is_ok()).unwrap_or(false), "creates": creates, "drops": drops, "connects": connects,
+           "shutdowns": shutdowns, "distinct_db_names": distinct})
+}
+
 fn dispatch(family: &str, case: &Value) -> Value {
     match family {
         "driver" => driver_family(case),
         "testdir" => testdir_family(case),
+        "parlib" => parlib_family(case),
         "update" => {
             if case.get("coltype").and_then(|s| s.as_str()) == Some("two") {
                 update_family::<TwoType>(case)
